@@ -967,6 +967,9 @@ func (ex *Exec) instr(fr *Frame, b *ssa.BasicBlock, in ssa.Instruction, st *Stat
 		}
 		if ci := ex.chanInvOf(x.Chan); ci != nil {
 			env := &SpecEnv{vars: map[string]Val{ci.Var: ex.get(fr, x.X, st)}, st: st, lst: st, pkg: fnPkg(fr.fn), topOld: fr.entry.top}
+			if owner := chanOwner(x.Chan); owner != nil {
+				env.vars["self"] = ex.get(fr, owner, st) // the object whose field holds the channel
+			}
 			env.old = env
 			o := ex.vc.oblige("chaninv", fr.name("chaninv:"+ci.Field), reach, ex.evalBool(ci.E, env), ex.where(x.Pos()))
 			o.Descr = "value sent on " + ci.Field + " satisfies the channel invariant: " + ci.Text
@@ -1362,6 +1365,16 @@ func (ex *Exec) mboxSetFull(ch Term, full Term, st *State) {
 	ex.vc.assume(Eq(nh, Store(h, ch, full)))
 	st.heaps["G|mbox.full"] = nh
 	ex.noteWrite("G|mbox.full", ch)
+}
+
+// chanOwner: the struct pointer a channel value was loaded from (x in x.field).
+func chanOwner(ch ssa.Value) ssa.Value {
+	if ld, ok := ch.(*ssa.UnOp); ok && ld.Op == token.MUL {
+		if fa, ok := ld.X.(*ssa.FieldAddr); ok {
+			return fa.X
+		}
+	}
+	return nil
 }
 
 // chanInvOf finds the channel invariant attached to the struct field a channel value was loaded from.
